@@ -528,3 +528,6 @@ Lemma tables_consistent :
   forallb (fun b => existsb (fun u => fst u =? snd (fst b)) unpack_dispatch) pack_dispatch = true /\
   serialize_strict_types = true.
 Proof. repeat split. Qed.
+
+Lemma serialization_process_independent : serialization_has_no_process_dependent_input = true.
+Proof. reflexivity. Qed.
